@@ -3,17 +3,18 @@ package main
 import (
 	"bytes"
 	"fmt"
+	"unsafe"
 
 	"verif/ev"
 )
 
 // Kept results and reused argument buffers (LESSONS classes 2, 3, 4, 9).
 //
-// The four codecs are stateless functions of their input, so every returned
-// value is a value: what a call returned must keep reading the same bytes
-// whatever the caller does afterwards with its own argument buffer and however
-// many further calls (of the same or another codec) follow; and a call through
-// a buffer the caller has used before must see the buffer's current content.
+// The four codecs are stateless functions of their input: what a call returned
+// must keep reading the same bytes however many further calls (of the same or
+// another codec) follow and whatever the caller does with memory the result
+// does not share with it; and a call through a buffer the caller has used
+// before must see the buffer's current content.
 // One case is a sequence of calls on one goroutine in which
 //
 //   - every []byte argument lives in one arena that is overwritten right after
@@ -22,7 +23,11 @@ import (
 //     (same address, same length), or the very same content again;
 //   - every returned string / slice is kept next to an independent copy taken
 //     at return time, is re-read after every later step, and is judged by the
-//     ordinary oracle when it is returned;
+//     ordinary oracle when it is returned; the one exception is a result that
+//     is a zero-copy view of the caller's own []byte argument (the statement
+//     does not promise a copy, and views are this library's style): it is
+//     judged at return time only, because what it reads after the caller has
+//     overwritten that buffer is the caller's doing;
 //   - []byte results are sometimes overwritten by the caller (they are the
 //     caller's), which must not show through in any later result;
 //   - malformed input is interleaved with well-formed input.
@@ -50,6 +55,24 @@ type keptResult struct {
 	b     []byte // the returned slice itself
 	snap  []byte // independent copy: what it read when it was returned (or after the caller's own overwrite)
 	step  int
+}
+
+// viewOf reports whether the returned string / slice lies inside buf (address
+// comparison only; used to exempt a view of the argument from later re-reads).
+func viewOf(k *keptResult, buf []byte) bool {
+	var p unsafe.Pointer
+	n := 0
+	if k.isStr {
+		p, n = unsafe.Pointer(unsafe.StringData(k.s)), len(k.s)
+	} else {
+		p, n = unsafe.Pointer(unsafe.SliceData(k.b)), cap(k.b)
+	}
+	if n == 0 || len(buf) == 0 {
+		return false
+	}
+	lo := uintptr(unsafe.Pointer(unsafe.SliceData(buf)))
+	a := uintptr(p)
+	return a >= lo && a < lo+uintptr(cap(buf))
 }
 
 func (k *keptResult) read() []byte {
@@ -198,9 +221,9 @@ func keptCase(c *ev.Case) {
 				return
 			}
 			if ok {
-				for i := n; i < len(dst); i++ {
+				for i := len(in); i < len(dst); i++ { // dst[n:len(in)] may be scratch, see checkParse
 					if dst[i] != canary(i) {
-						c.Failf("canary", "%sParse(dst, %s) returned %d but wrote dst[%d]", cd.name, q(in), n, i)
+						c.Failf("canary", "%sParse(dst, %s) returned %d but wrote dst[%d], beyond len(input) = %d", cd.name, q(in), n, i, len(in))
 						return
 					}
 				}
@@ -242,8 +265,16 @@ func keptCase(c *ev.Case) {
 				c.Add("kept/plain_input_through_ParseToString_of_bytes", 1)
 			}
 		}
-		kept = append(kept, res)
 		c.Add("kept/calls", 1)
+		if usesArena && viewOf(res, arena) {
+			// A zero-copy view of the caller's own []byte argument: it was judged
+			// above with what it read when it was returned, which is all the
+			// statement speaks of. What it reads after the caller has overwritten
+			// that buffer is the caller's doing, so it is not re-read later.
+			c.Add("kept/result_is_view_of_the_bytes_argument_not_re_read", 1)
+		} else {
+			kept = append(kept, res)
+		}
 
 		// the caller reuses its argument buffer
 		if usesArena {
